@@ -259,8 +259,6 @@ def run(ctx):
     recs, stats, races, out = harness(ctx, scheds, "trace.ndjson", 1, ctx.pick(25, 400), not ctx.quick,
                                       burst=ctx.pick(6, 60))
     missing = [g for g in NEED_GATES if not stats["gate_arrivals"].get(g)]
-    if missing:
-        raise vlib.ToolError("hook_missing: gates never reached: %s" % missing)
     for f, report in races:
         ctx.finding("data-race:" + f, "the race detector reports a data race between %s while writers and state "
                     "changes run concurrently" % f, {"report": report})
@@ -308,6 +306,10 @@ def run(ctx):
         if unrepro:
             ctx.notes.append("%d rejected run(s) were not rejected again when re-run (not reported)" % unrepro)
 
+    if missing and not ctx.findings:
+        # (with findings the missing gates are a consequence of the misbehaviour, not of the tooling)
+        raise vlib.ToolError("hook_missing: gates never reached: %s" % missing)
+
     # negative control: corrupt an accepted run and see it rejected
     neg = negative_control(ctx, recs, rejected)
 
@@ -349,7 +351,7 @@ def negative_control(ctx, recs, rejected):
     """Corrupt the (single-threaded, hence totally ordered) "order" scenario: the spec must reject."""
     bad_seq = {rj["run"][0]["seq"] for rj in rejected}
     for run in split_runs(recs):
-        if run[0]["seq"] in bad_seq or run[0].get("name") != "order":
+        if run[0]["seq"] in bad_seq or not str(run[0].get("name", "")).startswith("order@"):
             continue
         wires = [i for i, r in enumerate(run) if r["ev"] == "wire"]
         if len(wires) < 4:
